@@ -359,6 +359,12 @@ func TestC04ChattyServerSenderFailure(t *testing.T) {
 			comp := compModes[rapid.SampledFrom([]int{0, 2}).Draw(rt, "compression")]
 			readTO := rapid.SampledFrom([]time.Duration{200 * time.Millisecond, time.Second}).Draw(rt, "read-timeout")
 			gap := time.Duration(rapid.IntRange(1, 40).Draw(rt, "gap-ms")) * time.Millisecond
+			// ... or the server says nothing at all while it waits for the input, and the client reads
+			// without a timeout: nothing but the failure itself can end the call
+			silent := rapid.IntRange(0, 2).Draw(rt, "silent-server") == 0
+			if silent && rapid.Bool().Draw(rt, "no-read-timeout") {
+				readTO = ch.NoTimeout
+			}
 			failRound := rapid.IntRange(0, 3).Draw(rt, "failing-round")
 			how := rapid.SampledFrom([]string{"callback-error", "ragged-input", "callback-error-after-wait"}).Draw(rt, "failure")
 			kind := rapid.SampledFrom([]string{"progress", "log"}).Draw(rt, "streamed-packet")
@@ -370,7 +376,10 @@ func TestC04ChattyServerSenderFailure(t *testing.T) {
 			if kind == "log" {
 				it = Item{Kind: "log", Logs: []logRow{{Time: 1, Host: "h", QueryID: "q", Source: "s", Text: "t"}}}
 			}
-			const n = 1500
+			n := 1500
+			if silent {
+				n = 0
+			}
 			for i := 0; i < n; i++ {
 				stp := itemStep(it, nil, 0, nil)
 				stp.Delay = gap
@@ -440,8 +449,12 @@ func TestC04ChattyServerSenderFailure(t *testing.T) {
 			if tf.IsZero() {
 				rt.Fatalf("harness: the failing round was never reached (%v)", derr)
 			}
-			if lim := readTO + 2*time.Second; time.Since(tf) > lim {
-				rt.Fatalf("[%s at round %d] Do returned %v after the sender failed while the server kept sending %s packets every %v (no read ever timed out); limit readTimeout+2s = %v", how, failRound, time.Since(tf), kind, gap, lim)
+			lim := 2 * time.Second
+			if readTO > 0 {
+				lim += readTO
+			}
+			if time.Since(tf) > lim {
+				rt.Fatalf("[%s at round %d] Do returned %v after the sender failed (server silent: %v; otherwise %s packets every %v, no read ever timing out; read timeout %v); limit %v", how, failRound, time.Since(tf), silent, kind, gap, readTO, lim)
 			}
 			synctest.Wait()
 			if !client.IsClosed() {
@@ -464,8 +477,8 @@ func TestC04ChattyServerSenderFailure(t *testing.T) {
 			if err := client.Ping(context.Background()); !errors.Is(err, ch.ErrClosed) {
 				rt.Fatalf("closed client: Ping returned %v", err)
 			}
-			st.Case(stats.Hash("c04chatty", how, failRound, gap, readTO, kind, comp.Name, fmt.Sprint(typeNamesOf(cols))), true, func() any {
-				return map[string]any{"kind": "chatty-server-sender-failure", "failure": how, "round": failRound, "gap": gap.String(), "read_timeout": readTO.String(), "streamed": kind, "compression": comp.Name, "returned_after": time.Since(tf).String()}
+			st.Case(stats.Hash("c04chatty", how, failRound, gap, readTO, kind, silent, comp.Name, fmt.Sprint(typeNamesOf(cols))), true, func() any {
+				return map[string]any{"kind": "chatty-server-sender-failure", "failure": how, "round": failRound, "gap": gap.String(), "read_timeout": readTO.String(), "streamed": kind, "silent_server": silent, "compression": comp.Name, "returned_after": time.Since(tf).String()}
 			})
 			st.Label("failure:" + how)
 		})
